@@ -55,6 +55,35 @@ kubernetes:
   namespace:
     nameSelector:
       matchNames: ["ns2"]
+schedule:
+- name: sched
+  crontab: "* * * * *"
+  includeSnapshotsFrom: ["ns1-cm"]
+kubernetesValidating:
+- name: adm.example.com
+  includeSnapshotsFrom: ["all-cm"]
+  rules:
+  - apiGroups: [""]
+    apiVersions: ["v1"]
+    operations: ["*"]
+    resources: ["pods"]
+    scope: "Namespaced"
+kubernetesMutating:
+- name: adm.example.com
+  includeSnapshotsFrom: ["named-cm"]
+  rules:
+  - apiGroups: [""]
+    apiVersions: ["v1"]
+    operations: ["*"]
+    resources: ["pods"]
+    scope: "Namespaced"
+kubernetesCustomResourceConversion:
+- name: conv
+  crdName: crontabs.example.com
+  includeSnapshotsFrom: ["ns1-cm", "all-cm"]
+  conversions:
+  - fromVersion: v1
+    toVersion: v2
 `
 
 func vcNames(objs []kemtypes.ObjectAndFilterResult) []string {
@@ -136,6 +165,11 @@ func TestVerifConfSnapshots(t *testing.T) {
 		}()
 		hc := NewHookController()
 		hc.InitKubernetesBindings(testCfg.OnKubernetesEvents, mgr, log.NewNop())
+		// the other binding kinds only contribute their includeSnapshotsFrom lists here
+		hc.scheduleBindings = testCfg.Schedules
+		hc.validatingBindings = testCfg.KubernetesValidating
+		hc.mutatingBindings = testCfg.KubernetesMutating
+		hc.conversionBindings = testCfg.KubernetesConversion
 		sync := map[string][]string{}
 		err := hc.HandleEnableKubernetesBindings(func(info BindingExecutionInfo) {
 			for _, bc := range info.BindingContext {
@@ -162,6 +196,23 @@ func TestVerifConfSnapshots(t *testing.T) {
 				bcs = append(bcs, bc)
 			}
 		}
+		// one context of every other binding kind: its snapshots are those its own binding names
+		other := []struct {
+			typ  types.BindingType
+			name string
+			want []string
+		}{
+			{types.Schedule, "sched", []string{"ns1-cm"}},
+			{types.KubernetesValidating, "adm.example.com", []string{"all-cm"}},
+			{types.KubernetesMutating, "adm.example.com", []string{"named-cm"}},
+			{types.KubernetesConversion, "conv", []string{"all-cm", "ns1-cm"}},
+		}
+		nKube := len(bcs)
+		for _, o := range other {
+			bc := bindingcontext.BindingContext{Binding: o.name}
+			bc.Metadata.BindingType = o.typ
+			bcs = append(bcs, bc)
+		}
 		deadline := time.Now().Add(5 * time.Second)
 		for {
 			evaluated++
@@ -175,8 +226,13 @@ func TestVerifConfSnapshots(t *testing.T) {
 					keys = append(keys, k)
 				}
 				sort.Strings(keys)
-				if strings.Join(keys, ",") != strings.Join(wantKeys[b], ",") {
-					problems = append(problems, fmt.Sprintf("keys|binding %s: snapshots keys %v, want %v", b, keys, wantKeys[b]))
+				want := wantKeys[b]
+				if i >= nKube {
+					want = other[i-nKube].want
+					b = string(other[i-nKube].typ) + " binding " + b
+				}
+				if strings.Join(keys, ",") != strings.Join(want, ",") {
+					problems = append(problems, fmt.Sprintf("keys|binding %s: snapshots keys %v, want %v", b, keys, want))
 				}
 				lists := map[string][]string{}
 				for k, v := range bc.Snapshots {
@@ -255,5 +311,5 @@ func TestVerifConfSnapshots(t *testing.T) {
 			}
 		}
 	}
-	fmt.Printf("CONF-STATS evaluated=%d scope=fake cluster (2 namespaces, 7 config maps, 3 secrets, adds and deletes), 5 kubernetes bindings (all namespaces / one namespace + jqFilter / two namespaces without full objects / two sharing a group): one execution with a Synchronization and an Event context of every binding after each change: keys of snapshots, content = matching objects each once in (namespace, name) order, identical everywhere\n", evaluated)
+	fmt.Printf("CONF-STATS evaluated=%d scope=fake cluster (2 namespaces, 7 config maps, 3 secrets, adds and deletes), 5 kubernetes bindings (all namespaces / one namespace + jqFilter / two namespaces without full objects / two sharing a group): one execution with a Synchronization and an Event context of every binding plus one context of a schedule, a validating, a mutating (same name as the validating one) and a conversion binding after each change: keys of snapshots, content = matching objects each once in (namespace, name) order, identical everywhere\n", evaluated)
 }
